@@ -3,3 +3,4 @@ NOT_APPLICABLE = {}
 NOTES = ("Technique: explicit TLA+ specifications + TLC, bound to the code by spec->code replay and code->spec trace validation. "
          "Known genuine defects are listed in known_findings.json. See DESIGN.md.")
 comp("C17", "specs/lib/OneSlot.tla", "Forwarder and Pipe as one-slot buffers")
+comp("C16", "specs/lib/Stack.tla", "Stack as a bounded LIFO")
